@@ -26,8 +26,15 @@ BATCH = 60
 HAND = {0: "0+0", 1: "1+0", 2: "1+1", 9: "8+1"}
 HSET = set(HAND.values())
 KEYS = ("a", "b", "c")
-DC3 = ("from dataclasses import dataclass, field\nfrom collections import namedtuple\n@dataclass\nclass DC3:\n    a: int = 9\n    b: int = 9\n    c: int = 9\n\n"
+DC3 = ("from dataclasses import dataclass, field\nfrom collections import namedtuple\nimport attrs\n@dataclass\nclass DC3:\n    a: int = 9\n    b: int = 9\n    c: int = 9\n\n"
        "NT3 = namedtuple('NT3', 'a b c', defaults=[9, 9, 9])\n\n@dataclass\nclass DCR:\n    a: int = 9\n    b: int = field(default=9, repr=False, compare=False)\n    c: int = 9\n\n")
+
+
+LOCAL_KINDS = {
+    "dc": "    @dataclass\n    class Row:\n        a: int = 9\n        b: int = 9\n        c: int = 9\n",
+    "nt": "    Row = namedtuple('Row', 'a b c', defaults=[9, 9, 9])\n",
+    "at": "    @attrs.define\n    class Row:\n        a: int = 9\n        b: int = 9\n        c: int = 9\n",
+}
 
 
 def bounds(tier):
@@ -73,6 +80,12 @@ def _cases(tier):
         for sh in ("dict", "kwcall"):
             cases += [{"sh": sh, "old": o, "new": n, "par": par} for o in _maps() for n in _maps() if o]
     M = _maps()
+    # a class defined inside the test under one name, of a different kind from site to site (dataclass, namedtuple, attrs)
+    for o in M:
+        for n in M:
+            if o:
+                for kind in LOCAL_KINDS:
+                    cases.append({"sh": "localcall", "old": o, "new": n, "kind": kind})
     for sh in ("dict", "kwcall"):
         for o in M:
             for n in M:
@@ -123,8 +136,8 @@ def _old_text(c):
         return "{'k': %s, 'z': 7}" % _seq_text(c["old"], "list", c)
     if sh == "dict":
         return "{" + ", ".join("%r: %s" % (k, _par(c, i, HAND[v])) for i, (k, v) in enumerate(c["old"].items())) + "}"
-    if sh in ("kwcall", "ntcall", "dcrcall"):
-        return {"kwcall": "DC3", "ntcall": "NT3", "dcrcall": "DCR"}[sh] + "(" + ", ".join("%s=%s" % (k, _par(c, i, HAND[v])) for i, (k, v) in enumerate(c["old"].items())) + ")"
+    if sh in ("kwcall", "ntcall", "dcrcall", "localcall"):
+        return {"kwcall": "DC3", "ntcall": "NT3", "dcrcall": "DCR", "localcall": "Row"}[sh] + "(" + ", ".join("%s=%s" % (k, _par(c, i, HAND[v])) for i, (k, v) in enumerate(c["old"].items())) + ")"
 
 
 def _new_expr(c):
@@ -147,10 +160,12 @@ def _new_expr(c):
         items = items[::-1]
     if sh == "dict":
         return "{" + ", ".join("%r: %r" % kv for kv in items) + "}"
-    return {"kwcall": "DC3", "ntcall": "NT3", "dcrcall": "DCR"}.get(sh, "DC3") + "(" + ", ".join("%s=%r" % kv for kv in items) + ")"
+    return {"kwcall": "DC3", "ntcall": "NT3", "dcrcall": "DCR", "localcall": "Row"}.get(sh, "DC3") + "(" + ", ".join("%s=%r" % kv for kv in items) + ")"
 
 
 def _site(i, c):
+    if c["sh"] == "localcall":
+        return "def test_%d():\n%s    assert %s == snapshot(%s)\n" % (i, LOCAL_KINDS[c["kind"]], _new_expr(c), _old_text(c))
     return "def test_%d():\n    assert %s == snapshot(%s)\n" % (i, _new_expr(c), _old_text(c))
 
 
@@ -175,7 +190,7 @@ def _analyze(c, i, before, after, rx, ctx):
         node = loc.tree.body[0].value
     except Exception as e:  # noqa
         return ("unparsable-argument", "%r: %s" % (text[:200], e))
-    if sh in ("dict", "kwcall", "ntcall", "dcrcall"):
+    if sh in ("dict", "kwcall", "ntcall", "dcrcall", "localcall"):
         if sh == "dict":
             if not isinstance(node, ast.Dict):
                 return ("shape-lost", text[:200])
@@ -220,7 +235,7 @@ WEIRD = "W1 = 'u2028:\u2028 u2029:\u2029 x85:\x85 x1c:\x1c'  # \x0b vt\n\x0c\nW2
 
 
 def _judge(cases):
-    hdr = DC3 if any(c["sh"] in ("kwcall", "ntcall", "dcrcall") for c in cases) else ""
+    hdr = DC3 if any(c["sh"] in ("kwcall", "ntcall", "dcrcall", "localcall") for c in cases) else ""
     if any(c.get("weird") for c in cases):
         # characters that str.splitlines() treats as line ends but the Python tokenizer does not, above every call of the module
         hdr = "from inline_snapshot import snapshot\n" + WEIRD + hdr
@@ -341,16 +356,16 @@ def run_task(task):
         return out
     if "align" in task:
         return _align_probe(task["align"], task["L"])
-    r = batch.run_batched(task["cases"], _judge, label=lambda c: "ok:" + c["sh"],
-                          key=lambda c: repr((c["sh"], c["old"], c["new"], c.get("rev"), c.get("par"), c.get("weird"))))
+    r = batch.run_batched(task["cases"], _judge, label=lambda c: "ok:" + c["sh"], strict_batch=True,
+                          key=lambda c: repr((c["sh"], c["old"], c["new"], c.get("rev"), c.get("par"), c.get("weird"), c.get("kind"))))
     # non-trivial only if something had to change and something had to survive
     keep = []
     for c in task["cases"]:
         if c["old"] != c["new"]:
             if isinstance(c["old"], list):
                 if lcs(c["old"], c["new"]):
-                    keep.append(repr((c["sh"], c["old"], c["new"], c.get("rev"), c.get("par"), c.get("weird"))))
+                    keep.append(repr((c["sh"], c["old"], c["new"], c.get("rev"), c.get("par"), c.get("weird"), c.get("kind"))))
             elif any(c["new"].get(k, 9) == v for k, v in c["old"].items()):
-                keep.append(repr((c["sh"], c["old"], c["new"], c.get("rev"), c.get("par"), c.get("weird"))))
+                keep.append(repr((c["sh"], c["old"], c["new"], c.get("rev"), c.get("par"), c.get("weird"), c.get("kind"))))
     r["nontrivial"] = [k for k in r["nontrivial"] if k in set(keep)]
     return r
